@@ -103,3 +103,10 @@ claim(
     "Trusted: the rational model in acnverif/props/c12.py; dyadic coefficients; explicit unique names (auto-naming is not modelled).",
     "DESIGN.md 3/C12",
 )
+claim(
+    "C15",
+    "Hypothesis-generated ACN-Data documents (through get_evs / generate_events with a stubbed DataClient), stochastic sample matrices (through StochasticEvents.generate_events with sample() overridden) and (energy, stay, voltage, period) tuples for the capacity fit; oracles: integer-arithmetic bucketing, exact-rational floors with a guard band, recording capacity function, independent full-rate charging simulation",
+    "Exploration: 1 500 + 800 + 1 500 (quick) / 200 000 + 100 000 + 200 000 (thorough) generated cases: five time zones, DST-adjacent and boundary-aimed instants, sub-second parts, zero-length and sub-period stays, max_len, force_feasible, ideal / two-stage / fitted batteries with kwargs, invalid stochastic rows, multi-day and empty days, periods that do not divide 60. Arrival/departure equal the floored period indices minus the start index, caps and requested energy follow the stated formulas, ids are copied, the capacity function receives (request, stay in periods, voltage, period), free capacity covers the request and the fit's battery delivers the request (1e-6 kWh) when charged at 32 A for the stay; a refusal is only accepted when no listed capacity can serve the request.",
+    "Trusted: epoch-millisecond integer arithmetic in acnverif/props/c15.py; stochastic max_len compared in hours (pinned by existing tests); 1e-6 kWh fit tolerance; float floors within 1e-9 relative of an integer accept both neighbours.",
+    "DESIGN.md 3/C15",
+)
